@@ -9,7 +9,8 @@ Layer B: (1) structural guard: the text of every modelled function is hashed; a 
              same call (vm_compute inside coqc, coq/theories/C04rt/Corr.v).
 Layer C: the same run compares the two engines with each other: a difference is the property failing on the implementation.
 
-`rt(ck, tier, seed)` is called by checks/c04.py; `run(tier, seed)` is a standalone wrapper (evidence/C04rt.json)."""
+`rt(ck, tier, seed)` is called by checks/c04.py (writes nothing but scratch files under work/); `run(tier, seed)` is a
+standalone wrapper whose evidence goes to work/c04rt_standalone/evidence/C04rt.json."""
 import concurrent.futures
 import hashlib
 import json
@@ -29,8 +30,14 @@ MIN32, MAX32 = -2147483648, 2147483647
 TABLE = 'runtime library vs coq/theories/C04rt/Model.v'
 # finding ids (known_findings.json): a difference between the engines is attributed to a class ONLY by the decidable
 # predicate next to it
-K_NON_NUMERAL = 'C04-toInt-non-numeral'      # receiver of toInt is not  -?[0-9]+   (Model.spec_parse = None)
-K_VEC31 = 'C04-vec-int-i31'                  # an element outside [-2^30, 2^30) was stored in a Vec<int> of the driver
+K_VEC31 = 'C04-vec-int-i31'                  # OPEN: an element outside [-2^30, 2^30) was stored in a Vec<int> of the driver
+# FIXED findings of the runtime library (found by this check): their witnesses are replayed on every run through
+# ck.known_witness - a fixed entry suppresses nothing, a difference in their class is a new failure like any other
+FIXED_WITNESSES = {
+    'C04-toInt-non-numeral': 'corpus/C04rt/001-toInt-non-numeral.sam',
+    'C04-toInt-empty-string-traps': 'corpus/C04rt/002-toInt-empty-string-traps.sam',
+    'C04-vec-negative-capacity': 'corpus/C04rt/003-vec-negative-capacity.sam',
+}
 
 # ------------------------------------------------------------------------------------------------ structural guard
 # sha1 of the normalised text (comments stripped, white space collapsed) of everything Model.v was written from.
@@ -41,7 +48,7 @@ MODEL_HASHES = {
     'ts:__Process$println': 'a0cc2947470b5082',
     'ts:__Str$concat': '4cf123b518a18ee9',
     'ts:__Str$fromInt': 'fc8681cbd32b3739',
-    'ts:__Str$toInt': '74eacd0266ad1e41',
+    'ts:__Str$toInt': '36daf030d3b770de',
     'ts:__Vec$capacity': 'ebe808c90c82c4c6',
     'ts:__Vec$empty': 'f0081453f7e92a83',
     'ts:__Vec$eq': 'e63444707e1a27ae',
@@ -59,7 +66,7 @@ MODEL_HASHES = {
     'wat:__Str$concat': '7eeb3aaeae5a356b',
     'wat:__Str$eq': '12117961cfe6011a',
     'wat:__Str$fromInt': '1aeff719406994a9',
-    'wat:__Str$toInt': '48e9a1efd903e4a5',
+    'wat:__Str$toInt': '2876e136d5cca639',
     'wat:__Vec$capacity': '042a5db735a83b98',
     'wat:__Vec$empty': '31ac9bbdf14ec1d9',
     'wat:__Vec$eq': 'b008cd8229191f80',
@@ -70,7 +77,7 @@ MODEL_HASHES = {
     'wat:__Vec$push': 'f6eb812c92fdf966',
     'wat:__Vec$reserve': 'e1a697a95e7ecbc4',
     'wat:__Vec$set': '3b43105bf30510fc',
-    'wat:__Vec$withCapacity': '1da850c6150ef7ab',
+    'wat:__Vec$withCapacity': 'f21d1ea90a59ec14',
     'wat:data $d0': 'c30fc0adab75c078',
     'wat:type $_Str': '6c52b6fb74165c25',
     'wat:type $_Vec': 'cfefce582753187b',
@@ -363,7 +370,7 @@ def gen_toint(rng, n):
             '1.5', '.5', '-.5', '١', '00x', 'NaN', 'Infinity', '-Infinity', ' ', '  7', '7  8', '0 ', '-0x', '12:', '/5', ':5', '5/', '5:',
             '-/', '0a', 'a0', '+0', '-00a']
     junk = [j for j in junk if all(c in SAFE for c in j)]
-    out = [('toInt', s) for s in junk]
+    out = [('toInt', s) for s in junk + ['']]
     out += [('toInt', s) for s in ['0', '-0', '00', '-00', '007', '-007', '0012', '2147483647', '-2147483648', '2147483648', '-2147483649',
                                    '4294967296', '4294967295', '-4294967296', '9999999999', '99999999999', '123456789012345',
                                    '-123456789012345', '00000000000000000001', '-00000000002147483648', '1' + '0' * 14]]
@@ -383,8 +390,6 @@ def gen_toint(rng, n):
             s = s[:p] + rng.pick(list(' +-.axe/:') + [rng.pick(SAFE)]) + s[p + rng.below(2):]
         else:
             s = rand_str(rng, 6)
-        if s == '':
-            continue                                            # the empty receiver traps in WebAssembly: own entry module
         out.append(('toInt', s))
     return out
 
@@ -448,7 +453,7 @@ def gen_vec_chunk(rng, nops, big=False):
         if k == 0:
             ops.append(('vnew', slot, 'empty', None)); lens[slot] = 0
         elif k == 1:
-            ops.append(('vnew', slot, 'cap', rng.pick([0, 0, 1, 2, 3, 4, 5, 8, 9, 17]))); lens[slot] = 0
+            ops.append(('vnew', slot, 'cap', rng.pick([0, 0, 1, 2, 3, 4, 5, 8, 9, 17, -1, -7, MIN32]))); lens[slot] = 0
         else:
             ops.append(('vnew', slot, 'of', rand_elem(rng, big))); lens[slot] = 1
     new(0)
@@ -534,6 +539,8 @@ def gen_trap_modules(rng, tier):
                 mods.append(pre(n, kind) + [('vlen', 0), ('vget', 0, i), ('print', 'after')])
             if rng.chance(1, 2) or tier != 'quick':
                 mods.append(pre(n, kind) + [('vlen', 0), ('vset', 0, i, 5), ('print', 'after')])
+    for c in [-1, MIN32]:                                       # negative capacity: clamped to 0 since fix 043a9a2, the run returns
+        mods.append([('print', 'before'), ('vnew', 0, 'cap', c), ('vlen', 0), ('print', 'after')])
     # index just below the capacity but at/after the length: a slot that exists in the backing array
     mods.append([('vnew', 0, 'cap', 8), ('vpush', 0, 1), ('vget', 0, 1), ('print', 'after')])
     mods.append([('vnew', 0, 'cap', 8), ('vpush', 0, 1), ('vset', 0, 3, 9), ('print', 'after')])
@@ -609,6 +616,8 @@ def g_ending(o, engine):
             return '(ETrap TArrayOOB)'
         if k == 'engine-fault' and 'null' in d:
             return '(ETrap TNullRef)'
+        if k == 'engine-fault' and 'requested new array is too large' in d:
+            return '(ETrap TAllocTooLarge)'
         if k == 'panic':
             return '(EThrow %s)' % gs(d)
     else:
@@ -669,20 +678,35 @@ def model_predict(stmts):
 
 
 # ------------------------------------------------------------------------------------------------ classification
-def spec_parse_ok(s):
-    return re.fullmatch(r'-?[0-9]+', s) is not None
-
-
 def klass_of(stmt, chunk_big):
     """The class of a difference BETWEEN THE ENGINES on this statement; None = a new failure of the property."""
-    if stmt[0] == 'toInt':
-        if not spec_parse_ok(stmt[1]):
-            return K_NON_NUMERAL
-        if not (MIN32 <= int(stmt[1]) <= MAX32):
-            return 'excluded:overflow'                           # numeral outside 32 bits: the property excludes overflow
     if stmt[0].startswith('v') and chunk_big:
         return K_VEC31
     return None
+
+
+def replay_fixed_witnesses(ck, base):
+    """The witnesses of the repaired runtime-library findings: compile, run on both engines, compare."""
+    ids = [k for k in FIXED_WITNESSES if any(x['id'] == k for x in ck.known)]
+    if not ids:
+        return
+    srcs = {}
+    for n, kid in enumerate(ids):
+        srcs['W%d' % n] = open(os.path.join(ROOT, FIXED_WITNESSES[kid])).read()
+    out = os.path.join(base, 'witnesses')
+    rec = run_jobs([{'id': 0, 'sources': srcs, 'entries': sorted(srcs), 'compile': True, 'out_dir': out, 'with_std': False}])[0]
+    if rec['compile'] != 'ok':
+        for kid in ids:
+            ck.known_witness(kid, True, 'witness no longer compiles: %s' % rec['compile'])
+        return
+    w = run_wasm_jobs(os.path.join(out, '__all__.wasm'), [{'id': n, 'main': '_W%d_Main$main' % n} for n in range(len(ids))], out)
+    if w is None:
+        return
+    for n, kid in enumerate(ids):
+        t = _ts_run(os.path.join(out, 'W%d.ts' % n), 20000)
+        d = trap_difference(w[n], t)
+        ck.known_witness(kid, d is not None, d or 'back ends agree: wasm %s / ts %s' % (w[n]['lines'][:6], t['lines'][:6]))
+        ck.count('fixed witnesses replayed')
 
 
 # ------------------------------------------------------------------------------------------------ the check
@@ -697,8 +721,10 @@ def rt(ck, tier, seed):
         'C04rt: WebAssembly instruction meanings (i32 ops over Common/Int32, packed i8 arrays: array.set keeps 8 bits, array.get_s '
         'sign-extends, out-of-range index traps), array lengths below 2^31; loader.js gcArrayToString as String.fromCharCode of get_s',
     ]
+    t_props = t0
     if not os.environ.get('C04RT_SKIP_PROPS'):                   # development only: the tie without the Coq build
         check_props(ck, 'theories/C04rt/Props.v', extra_deps=['theories/C17'])
+    t_props = time.time()
     rng = Rng(seed ^ 0xC04A7)
     chunks, traps = gen_driver(rng, tier)
     base = os.path.join(WORK, 'c04rt_run')
@@ -807,6 +833,7 @@ def rt(ck, tier, seed):
         ck.notes.append('C04rt: %d model/implementation disagreements, first 12 recorded' % ndis)
 
     # ---- the property on the implementation: the two engines against each other
+    found = []                      # (klass, what, input, expected, observed): failures outside every class are reported first
     for kind, i, stmts, big, wo, to, fam in meta:
         if kind == 'chunk':
             printing = [s for s in stmts if s[0] in PRINTING]
@@ -819,26 +846,25 @@ def rt(ck, tier, seed):
                 if j >= len(wo) or j >= len(to) or wo[j] == to[j]:
                     continue
                 kl = klass_of(st, big)
-                if kl == 'excluded:overflow':
-                    ck.count('engines differ, excluded (numeral outside 32 bits)')
-                    continue
                 k = stmts.index(st)
                 pre = [s for s in stmts[:k] if s[0].startswith('v')] if st[0].startswith('v') else []
                 ck.count('engines differ [%s]' % (kl or 'NEW'))
-                ck.property_failure('runtime library: the back ends print different lines for %s' % (list(st),), standalone(pre + [st]),
-                                    expected={'wasm': wo[j]}, observed={'ts': to[j]}, how='./check C04 --replay <this file>', klass=kl)
+                found.append((kl, 'runtime library: the back ends print different lines for %s' % (list(st),), pre + [st],
+                              {'wasm': wo[j]}, {'ts': to[j]}))
         else:
             ck.count('trap modules')
             ck.case(['rt-trap', [list(s) for s in stmts]], True)
             d = trap_difference(wo, to)
             if d is None:
                 continue
-            kl = K_NON_NUMERAL if any(s[0] == 'toInt' and not spec_parse_ok(s[1]) for s in stmts) else None
+            kl = None
             ck.count('engines differ [%s]' % (kl or 'NEW'))
-            ck.property_failure('runtime library: the back ends end differently: ' + d, standalone(stmts),
-                                expected={'wasm': wo}, observed={'ts': to}, how='./check C04 --replay <this file>', klass=kl)
+            found.append((kl, 'runtime library: the back ends end differently: ' + d, stmts, {'wasm': wo}, {'ts': to}))
+    for kl, what, stmts, exp, obs in sorted(found, key=lambda f: f[0] is not None):
+        ck.property_failure(what, standalone(stmts), expected=exp, observed=obs, how='./check C04 --replay <this file>', klass=kl)
+    replay_fixed_witnesses(ck, base)
     ck.extra_cov['c04rt'] = {'chunks': len(chunks), 'trap_modules': len(traps), 'model_cases': len(cases),
-                             'seconds': {'props': round(t0 and 0, 1), 'compile': round(t_comp - t0, 1), 'engines': round(t_eng - t_comp, 1),
+                             'seconds': {'props': round(t_props - t0, 1), 'compile': round(t_comp - t_props, 1), 'engines': round(t_eng - t_comp, 1),
                                          'model': round(t_model - t_eng, 1)}}
     ck.sample({'c04rt': {'call': list(meta[0][2][0]), 'wasm': meta[0][4][:1], 'ts': meta[0][5][:1]}})
 
@@ -858,20 +884,26 @@ def trap_difference(w, t):
 
 
 def run(tier, seed, replay=None):
+    """Standalone: same as the call from checks/c04.py; evidence and replay files go under /verif/work/c04rt_standalone/
+    (/verif/evidence and /verif/replay are reserved for the property ids)."""
+    import lib.vlib as V
     ck = Check('C04rt', tier, seed, level='proof')
     kf = json.load(open(os.path.join(ROOT, 'known_findings.json')))
     ck.known = [k for k in kf['findings'] if k['property'] == 'C04']
-    ck.pid_findings = 'C04'
     ck.checker_cmd = 'make -C /verif/coq theories/C04rt/Props.vo + Print Assumptions; python3 -m checks.c04_rt'
     ck.rule = ('one generated driver per run: every built-in of the runtime library on boundary and random arguments; distinct = '
                'distinct call; non-trivial = the call ran on both engines and was evaluated in the model')
     rt(ck, tier, seed)
-    return ck.finish()
+    old = V.OUT_ROOT
+    V.OUT_ROOT = os.path.join(V.WORK, 'c04rt_standalone')
+    try:
+        return ck.finish()
+    finally:
+        V.OUT_ROOT = old
 
 
 if __name__ == '__main__':
     if '--print-hashes' in sys.argv:
-        r = Rng(1)
         b = os.path.join(WORK, 'c04rt_hash')
         src = {'Drv': module_text([[('fromInt', 1)]])}
         run_jobs([{'id': 0, 'sources': src, 'entries': ['Drv'], 'compile': True, 'out_dir': b, 'with_std': False}])
